@@ -48,6 +48,7 @@ def header_term(msgtype, ser, flags, seq, dlen, alen, corr):
 
 @R.contract
 class SendingMessageInit(Contract):
+    no_join = True      # proved path by path (the joined, disjunctive states make the concatenation obligations time out)
     name = "Pyro5.protocol.SendingMessage.__init__"
     props = ("C06", "C01")
     raises = {"Pyro5.errors.ProtocolError": "x_protocol", "struct.error": "x_struct",
